@@ -110,6 +110,26 @@ func c01Loop(l *core.Ledger, r *rt, rl *replyLoop) {
 	qf := rl.qfCalls[0]
 	// ---- R2 arguments
 	a0 := sx.Origins(qf.Call.Args[0])
+	// a request copied into the loop's own state struct at the single place the loop is
+	// started from: look at what was put into that field there
+	var a0r []sx.Origin
+	for _, o := range a0 {
+		resolved := false
+		if o.Kind == sx.KField && o.Field != nil && len(o.Base) == 1 && o.Base[0].Kind == sx.KParam {
+			if par, isPar := o.Base[0].V.(*ssa.Parameter); isPar {
+				if arg := sx.SingleCallArg(par); arg != nil {
+					if lit, okLit := structLiteral(arg); okLit && lit[o.Field.Name()] != nil {
+						a0r = append(a0r, sx.Origins(lit[o.Field.Name()])...)
+						resolved = true
+					}
+				}
+			}
+		}
+		if !resolved {
+			a0r = append(a0r, o)
+		}
+	}
+	a0 = a0r
 	okMsg := sx.All(a0, sx.IsFieldNamed("Message", func(o sx.Origin) bool {
 		if o.Kind == sx.KParam {
 			return isNamed(o.V.Type(), core.RootModule, "QuorumCallData") || isNamed(o.V.Type(), core.RootModule, "CorrectableCallData")
